@@ -1,5 +1,10 @@
 package jmespath
 
+import (
+	"errors"
+	"unicode/utf8"
+)
+
 // C12: slices select exactly the elements of the start:stop:step walk.
 
 // refSliceIndices is the specification's slice algorithm (Python semantics)
@@ -150,4 +155,118 @@ func H_C12_array() {
 		}
 	}
 	vrtReach("end")
+}
+
+// cpSplit splits valid UTF-8 text into its code points (as substrings).
+func cpSplit(s string) []string {
+	var out []string
+	for len(s) > 0 {
+		_, sz := utf8.DecodeRuneInString(s)
+		out = append(out, s[:sz])
+		s = s[sz:]
+	}
+	return out
+}
+
+// H_C12_string: strings of 0..N code points, each 1..4 bytes wide.
+func H_C12_string() {
+	maxN := 3
+	if vrtTier() == 1 {
+		maxN = 4
+	}
+	n := vrtChoose("n", maxN+1)
+	s := vrtStrN("s", n, smUTF8)
+	k := vrtChoose("pattern", len(c12Patterns))
+	expr, start, stop, step, hasStart, hasStop := c12Template(k)
+	got, err := Search(expr, s)
+	cps := cpSplit(s)
+	vrtAssert(len(cps) == n, "harness: code point count")
+	idx := refSliceIndices(n, start, stop, step, hasStart, hasStop)
+	want := ""
+	for _, i := range idx {
+		want += cps[i]
+	}
+	vrtAssert(err == nil, "string slice with non-zero step must not fail")
+	gs, ok := got.(string)
+	vrtAssert(ok, "slice of a string is a string")
+	vrtAssert(gs == want, "string slice selects the code points of the walk")
+	vrtReach("end")
+}
+
+// H_C12_stepzero: step 0 is an invalid-value error for every operand, and the
+// only slice error.
+func H_C12_stepzero() {
+	var doc any
+	switch vrtChoose("doc", 3) {
+	case 0:
+		doc = []any{int64(1), int64(2)}
+	case 1:
+		doc = "ab"
+	default:
+		doc = vrtDoc("d", 1, uJSON, uScalar)
+	}
+	start, stop := vrtInt("start"), vrtInt("stop")
+	var expr string
+	switch vrtChoose("pattern", 3) {
+	case 0:
+		expr = vrtMagic("[%d:%d:0]", start, stop)
+	case 1:
+		expr = "[::0]"
+	default:
+		expr = vrtMagic("[%d::0]", start)
+	}
+	got, err := Search(expr, doc)
+	vrtAssert(err != nil && errors.Is(err, ErrInvalidValue), "step 0 is invalid-value")
+	vrtAssert(got == nil, "failed call returns nil")
+	_, cerr := Compile(expr)
+	vrtAssert(cerr != nil && errors.Is(cerr, ErrInvalidValue), "step 0 is reported by Compile")
+}
+
+// H_C12_shape: a slice of an array starts a projection; a slice of a string
+// yields a string that following selectors see as a whole; other values give null.
+func H_C12_shape() {
+	start, stop := vrtInt("start"), vrtInt("stop")
+	switch vrtChoose("case", 3) {
+	case 0:
+		// projection: a[s:e].x applied per element, nulls dropped
+		n := vrtChoose("n", 4)
+		arr := make([]any, n)
+		present := make([]bool, n)
+		for i := range arr {
+			if vrtBool("has") {
+				arr[i] = map[string]any{"x": int64(10 + i)}
+				present[i] = true
+			} else {
+				arr[i] = map[string]any{"y": int64(0)}
+			}
+		}
+		got, err := Search(vrtMagic("[%d:%d].x", start, stop), arr)
+		vrtAssert(err == nil, "projection over slice must not fail")
+		idx := refSliceIndices(n, start, stop, 1, true, true)
+		var want []int64
+		for _, i := range idx {
+			if present[i] {
+				want = append(want, int64(10+i))
+			}
+		}
+		ga, ok := got.([]any)
+		vrtAssert(ok && len(ga) == len(want), "slice projection length")
+		for i := range want {
+			if ok && i < len(ga) {
+				v, isI := ga[i].(int64)
+				vrtAssert(isI && v == want[i], "slice projection element")
+			}
+		}
+	case 1:
+		s := vrtStrN("s", 2, smASCII)
+		got, err := Search(vrtMagic("length(@[%d:%d])", start, stop), s)
+		idx := refSliceIndices(2, start, stop, 1, true, true)
+		vrtAssert(err == nil, "length of string slice")
+		v, isI := got.(int64)
+		vrtAssert(isI && v == int64(len(idx)), "string slice yields a string (length counts its code points)")
+	default:
+		doc := vrtDoc("d", 1, uNil|uBool|uJNum|uObj, uScalar)
+		got, err := Search(vrtMagic("[%d:%d]", start, stop), doc)
+		vrtAssert(err == nil && got == nil, "slice of a non-array, non-string is null")
+	}
 }
